@@ -101,3 +101,43 @@ def scan_geometry(image_shape, canvas_shape, angle_deg):
     xa = (H - 1) / 2.0 + ct * dr - st * dc
     ya = (W - 1) / 2.0 + st * dr + ct * dc
     return xa, ya
+
+
+# ---- anisotropic / obliquely elongated band-limited content (C13) --------------------------------------
+
+
+def oblique_image(rng, shape, bw, sigma_short, anisotropy, angle_deg, style="texture", dc=0.0, nblobs=4):
+    """Real band-limited image made of features elongated along one oblique direction.
+
+    Every feature is a Gaussian with standard deviations (sigma_short * anisotropy, sigma_short) pixels whose long axis
+    makes `angle_deg` with the row axis; the spectrum is cut strictly inside the ellipse rad <= bw (so `translate` stays
+    exact).  The auto-correlation peak is the same Gaussian widened by sqrt(2): a tilted ridge whose 1-D row / column cuts
+    do not peak at the 2-D maximum.
+
+    style "texture": random phases (streaky texture, the auto-correlation is the clean tilted Gaussian);
+    style "blobs":   `nblobs` such blobs at random positions with amplitudes 0.5..1 (diagonal streaks / elongated particles).
+    """
+    M, N = shape
+    kr, kc = freq_grids(shape)
+    rad = np.sqrt((kr / 0.5) ** 2 + (kc / 0.5) ** 2)
+    inside = rad <= bw
+    th = np.deg2rad(float(angle_deg))
+    ku = kr * np.cos(th) + kc * np.sin(th)  # along the long axis
+    kv = -kr * np.sin(th) + kc * np.cos(th)
+    sl, ss = float(sigma_short) * float(anisotropy), float(sigma_short)
+    env = np.exp(-2.0 * np.pi**2 * ((sl * ku) ** 2 + (ss * kv) ** 2)) * inside
+    if style == "texture":
+        F = env * np.exp(2j * np.pi * rng.random(shape)) * (1.0 + 0.3 * (rng.random(shape) - 0.5))
+    elif style == "blobs":
+        F = np.zeros(shape, dtype=np.complex128)
+        for _ in range(int(nblobs)):
+            r0, c0 = rng.uniform(0, M), rng.uniform(0, N)
+            F = F + rng.uniform(0.5, 1.0) * env * np.exp(-2j * np.pi * (kr * r0 + kc * c0))
+    else:
+        raise ValueError(style)
+    F[0, 0] = 0.0
+    im = np.real(np.fft.ifft2(F))
+    sd = float(im.std())
+    if not sd > 0:
+        raise ValueError("degenerate image")
+    return im / sd + dc
